@@ -53,6 +53,7 @@ class C12Sched(Scheduler):
 
 
 class C12Spec(c01.C01Spec):
+    churn_share = 0
     prop = PROP
     invariants = INVARIANTS
 
